@@ -177,6 +177,21 @@ func genSrcPins(out string) {
 		}
 		fmt.Fprintf(&b, "  (%q, %q)%s\n", u.name, u.hash, sep)
 	}
+	b.WriteString("]\n\n/-- the units that are not functions: package-level variables, constants and types -/\n")
+	b.WriteString("def srcState : List (String × String) := [\n")
+	var st []unit
+	for _, u := range units {
+		if !strings.Contains(u.name, "/func/") {
+			st = append(st, u)
+		}
+	}
+	for i, u := range st {
+		sep := ","
+		if i == len(st)-1 {
+			sep = ""
+		}
+		fmt.Fprintf(&b, "  (%q, %q)%s\n", u.name, u.hash, sep)
+	}
 	b.WriteString("]\n\nend BM.Gen\n")
 	if err := os.WriteFile(filepath.Join(out, "SrcPins.lean"), []byte(b.String()), 0o644); err != nil {
 		fatal("%v", err)
